@@ -62,8 +62,10 @@ def default_alphabet(d: R.Design, overrides=None):
 
 class Case:
     def __init__(self, name, vhdl, step, init, imports="", defs="", assume="fun _ _ => true", mid=False,
-                 alphabet=None, alphabet_overrides=None, fuel=1000000, clk="clk", top=None, meta=None, monitor=False):
+                 alphabet=None, alphabet_overrides=None, fuel=1000000, clk="clk", top=None, meta=None, monitor=False,
+                 input_inits=None):
         self.monitor = monitor
+        self.input_inits = input_inits or {}
         self.name = name
         self.vhdl = vhdl
         self.step = step
@@ -85,6 +87,10 @@ class Case:
 
 def write_case(ck, c: Case):
     ents, d = R.read_design(c.vhdl, c.top, c.clk)
+    for sd in d.sigs:
+        # power-up value of an input port as driven by the test bench before the first clock
+        if sd.dir == "in" and sd.name in c.input_inits:
+            sd.init = c.input_inits[sd.name]
     c.design = d
     c.entities = ents
     term = R.design_to_coq(d)
